@@ -24,6 +24,18 @@ Proof.
   unfold id_start in *. rewrite H. cbn [andb]. eapply forallb_impl; [|eassumption]. intros x Hx. exact Hx.
 Qed.
 
+Lemma restricted_sub_reserved : forallb (fun w => mem_str w reserved) restricted_words = true.
+Proof. vm_compute. reflexivity. Qed.
+
+Lemma ident_ok_path_segment r : ident_ok r = true -> path_segment_ok r = true.
+Proof.
+  intros H. unfold path_segment_ok. rewrite (ident_ok_new r H). cbn [andb].
+  destruct (is_restricted r) eqn:E; [|reflexivity]. exfalso.
+  unfold is_restricted in E. pose proof (mem_str_forallb _ _ _ restricted_sub_reserved E) as Hm. cbn beta in Hm.
+  destruct r as [|c t]; [discriminate H|]. unfold ident_ok in H. apply andb_prop in H as [_ H].
+  rewrite Hm in H. discriminate H.
+Qed.
+
 Lemma sanitize_total s : name_dom s = true -> exists r, sanitize s = Ok r /\ ident_new_ok r = true.
 Proof. intros H. destruct (sanitize_ident_ok s H) as [r [Hr Hi]]. exists r. split; [exact Hr|apply ident_ok_new; exact Hi]. Qed.
 
@@ -303,7 +315,7 @@ Hypothesis Ho : w_op o = true.
 
 Lemma op_facts : name_dom (o_name o) = true /\ ident_new_ok (o_method o) = true /\ ident_new_ok (op_file_name (o_name o)) = true /\
   (forall p, In p (o_params o) -> w_param p = true) /\ ty_names_ok (o_ret o) = true /\ url_template_ok o = true /\
-  (negb (crowded_args o) || path_segment_ok (op_file_name (o_name o)) && path_segment_ok (required_struct_name (o_name o)))%bool = true.
+  (negb (crowded_args o) || path_segment_ok (op_file_name (o_name o)))%bool = true.
 Proof. unfold w_op in Ho. bools. repeat split; try assumption. apply forallb_forall. assumption. Qed.
 
 Lemma params_sub (f : hparam -> bool) p : In p (filter f (o_params o)) -> w_param p = true.
@@ -557,7 +569,9 @@ Proof.
   step_with ltac:(apply mapM_total; intros p Hin; apply Hsub in Hin; destruct (Hid p Hin) as [id Hi]; rewrite Hi; cbn [bind];
                   destruct (Hval p Hin) as [v Hv]; rewrite Hv; done_ok).
   rewrite Hpk. cbn [bind]. unfold ident. rewrite Hci. cbn [bind].
-  step_with ltac:(destruct (crowded_args o); [cbn [negb orb] in Hps; rewrite Hps|]; done_ok).
+  step_with ltac:(destruct (crowded_args o); [|done_ok]; cbn [negb orb] in Hps; rewrite Hps;
+                  destruct (sanitize_struct_ident_ok _ (reqd_name_ok _ Hn)) as [sn [Hsn Hsi]]; rewrite Hsn; cbn [bind andb];
+                  rewrite (ident_ok_path_segment _ Hsi); done_ok).
   destruct (field_ident_total _ Hn) as [opid Hop]. rewrite Hop. cbn [bind]. done_ok.
 Qed.
 
